@@ -199,7 +199,22 @@ fn annotation_src(ty: &Type) -> Option<String> {
         } => None,
         Type::Any => None,
         _ if ty.is_no_value() => None,
+        _ if contains_any_or_error(ty) => None,
         _ => Some(ty.to_string()),
+    }
+}
+
+/// Does `ty` have `Any` or an error type anywhere inside it? Neither
+/// can be written as a type hint.
+fn contains_any_or_error(ty: &Type) -> bool {
+    match ty {
+        Type::Any | Type::Error { .. } => true,
+        Type::Tuple(items) => items.iter().any(contains_any_or_error),
+        Type::Fun {
+            params, return_, ..
+        } => params.iter().any(contains_any_or_error) || contains_any_or_error(return_),
+        Type::UserDefined { args, .. } => args.iter().any(contains_any_or_error),
+        Type::TypeParameter(_) => false,
     }
 }
 
